@@ -36,9 +36,9 @@ struct Shadow {
   Sys conj;                 // constraints of the convex component(s)
   Lattice L[2];             // lattice of a grid component (own conversion from its congruences)
   Lattice EL;               // lattice used for the enumeration (canonical)
-  bool enumerated, exact_empty;
+  bool enumerated, exact_empty, complete;   // complete: pts is the whole of d1 ∩ d2
   std::vector<Vec> pts;     // enumerated points of d1 ∩ d2
-  Shadow() : n(0), flag(false), enumerated(false), exact_empty(false) {}
+  Shadow() : n(0), flag(false), enumerated(false), exact_empty(false), complete(false) {}
   bool member_comp(int i, const Vec& x) const {
     if (c[i].is_grid) { for (size_t k = 0; k < c[i].cgs.size(); ++k) if (!ref::sat_cg(c[i].cgs[k], x)) return false; return true; }
     return ref::sat(c[i].S, x);
@@ -55,8 +55,8 @@ static Lattice half_lattice(int n) {
 static Q qfloor(const Q& q) { mpz_class f; mpz_fdiv_q(f.get_mpz_t(), q.get_num_mpz_t(), q.get_den_mpz_t()); return Q(f); }
 
 // Points of  {x | conj(x)} ∩ L  in a window of the generator form of L centred on the convex part.
-static void enumerate_points(int n, const Sys& conj, Lattice L, int W, std::vector<Vec>& pts, bool& exact_empty, Lattice* canon = 0) {
-  pts.clear(); exact_empty = false;
+static void enumerate_points(int n, const Sys& conj, Lattice L, int W, std::vector<Vec>& pts, bool& exact_empty, Lattice* canon = 0, bool* complete = 0) {
+  pts.clear(); exact_empty = false; if (complete) *complete = false;
   ref::canonicalize(L);
   if (canon) *canon = L;
   if (L.empty) { exact_empty = true; return; }
@@ -66,17 +66,18 @@ static void enumerate_points(int n, const Sys& conj, Lattice L, int W, std::vect
   for (size_t i = 0; i < conj.size(); ++i) { Vec a(K); for (int k = 0; k < K; ++k) a[k] = ref::dot(conj[i].a, V[k]); T.push_back(Con(a, Q(conj[i].b - ref::dot(conj[i].a, L.p)), conj[i].rel)); }
   Vec w;
   if (!ref::feasible(K, T, &w)) { exact_empty = true; return; }
-  Vec base(K);
+  Vec base(K); std::vector<Q> lo(K), hi(K); std::vector<bool> bnd(K, false);
   for (int k = 0; k < K; ++k) {
     Vec e(K); e[k] = 1; ref::SupResult u = ref::supremum(K, T, e); e[k] = -1; ref::SupResult l = ref::supremum(K, T, e);
     Q c;
-    if (u.bounded && l.bounded) c = (u.sup - l.sup) / 2;
+    if (u.bounded && l.bounded) { c = (u.sup - l.sup) / 2; bnd[k] = true; hi[k] = u.sup; lo[k] = -l.sup; }
     else if (u.bounded) c = u.sup - (W - 1);
     else if (l.bounded) c = -l.sup + (W - 1);
     else c = w[k];
     if (k < np) base[k] = qfloor(c + Q(1, 2)); else base[k] = qfloor(2 * c + Q(1, 2)) / 2;
   }
   int Wk = (K >= 3) ? g_W3 : W;
+  if (complete) { bool all = true; for (int k = 0; k < K; ++k) { if (!bnd[k]) all = false; else if (k < np) { if (lo[k] < base[k] - Wk || hi[k] > base[k] + Wk) all = false; } else if (lo[k] != hi[k]) all = false; } *complete = all; }
   std::vector<int> kk(K, -Wk);
   for (;;) {
     Vec t(K); for (int k = 0; k < K; ++k) t[k] = base[k] + (k < np ? Q(kk[k]) : Q(kk[k]) / 2);
@@ -99,7 +100,8 @@ static bool enumerate(Shadow& s) {
   if (s.enumerated) return true;
   s.enumerated = true;
   Lattice L = s.c[1].is_grid ? s.L[1] : (s.c[0].is_grid ? s.L[0] : half_lattice(s.n));
-  enumerate_points(s.n, s.conj, L, g_W, s.pts, s.exact_empty, &s.EL);
+  bool cmp = false; enumerate_points(s.n, s.conj, L, g_W, s.pts, s.exact_empty, &s.EL, &cmp);
+  s.complete = cmp && (s.c[0].is_grid || s.c[1].is_grid); if (s.exact_empty) s.complete = true;
   hx::count("enum_points", s.pts.size());
   // second, independent evaluation: plain arithmetic against what PPL reported
   for (size_t i = 0; i < s.pts.size(); ++i) if (!s.member(s.pts[i])) { violation("harness.bug.enum_point", "enumerated point " + show(s.pts[i]) + " is not a member by plain arithmetic"); return false; }
@@ -184,6 +186,7 @@ static bool check_reduction(const std::string& op, const Shadow& before, const S
     if (r < 0) { violation("harness.bug.lp_witness", op); return false; }
     if (r == 0) { violation(KP + op + ".reduce_changed_intersection:" + who + "lost-by-" + which, "LP point " + show(wv) + " of d1∩d2 is lost; before " + show_shadow(before) + " after " + show_shadow(after)); return false; }
   }
+  if (!before.flag && after.flag && who.empty()) hx::count(same_value(before, after) ? "reduce.no_change" : "reduce.effective." + F->red);
   return true;
 }
 
@@ -614,7 +617,7 @@ static bool run_query(IProd& A, IProd& B, bool alias, const Shadow& SA, const Sh
     hx::count(ans ? "is_empty.true" : "is_empty.false");
     if (ans && !SA.pts.empty()) { wrong(op, "true-but-point", "is_empty() is true but " + show(SA.pts[0]) + " is in d1∩d2", SA); return false; }
     if (ans && lp) { Vec w; if (ref::feasible(n, SA.conj, &w)) { if (!ref::sat(SA.conj, w)) { violation("harness.bug.lp_witness", op); return false; } wrong(op, "true-but-point", "is_empty() is true but LP point " + show(w) + " is in d1∩d2", SA); return false; } }
-    if (!ans && (SA.exact_empty || (lp && !ref::feasible(n, SA.conj)))) hx::count("is_empty.false_on_empty_intersection");
+    if (!ans && ((SA.complete && SA.pts.empty()) || (lp && !ref::feasible(n, SA.conj)))) hx::count("is_empty.false_on_empty_intersection." + F->red);
     break;
   case 3: {
     bool u = comp_is_universe(SA, 0) && comp_is_universe(SA, 1);
@@ -853,7 +856,8 @@ static void run_case(uint64_t) {
       for (int i = 0; i < NP; ++i) { S[i] = observe(*pool[i]); if (i == ai || i == bi) if (!enumerate(S[i])) return; }
       const Shadow& SA = S[ai]; const Shadow& SB = S[bi];
       hx::count("state." + inter_class(SA));
-      if (SA.exact_empty && !comp_is_empty(SA, 0) && !comp_is_empty(SA, 1)) hx::count("inconsistent_pairs");
+      if (SA.complete && SA.pts.empty() && !comp_is_empty(SA, 0) && !comp_is_empty(SA, 1)) hx::count(SA.flag ? "inconsistent_pairs.flag_reduced" : "inconsistent_pairs.unreduced");
+      if (SA.complete) hx::count("complete_enumerations");
       std::ostringstream pre; pre << " | #" << ai; std::string bname = "#" + std::to_string(bi);
       int kind = rnd(0, 99);
       int w_mut = 40, w_query = 32, w_copy = 6, w_ascii = 5, w_ctor = 6, w_dims = 11;
